@@ -87,7 +87,8 @@ SPEC = {
         "macro_call_gap_linebreak_witness", "macro_call_gap_insensitive_if_fixed", "empty_argument_linebreak_witness",
         "trivia_insensitive_if", "trivia_insensitive_rejected_if", "trivia_lexers_as_modelled",
         "trivia_insensitive_lexer", "trivia_insensitive_lexer_rejected", "lexer_failure_moves",
-        "lexer_side_conditions_needed", "preprocess_trivia_insensitive_partial"]] + [
+        "lexer_side_conditions_needed", "preprocess_trivia_insensitive_partial",
+        "commandline_defines_as_modelled", "commandline_defines_location"]] + [
         # the lemma the lexer theorem rests on (Lemmas/LexStableTok.lean) and the three facts about the concrete lexer
         "RsslVerif.Lemmas.LexStable.tokenIntermediate_stable", "RsslVerif.Lemmas.TriviaLexer.triviaText_lexesAs",
         "RsslVerif.Lemmas.TriviaLexer.adjacent", "RsslVerif.Lemmas.TriviaLexer.distant"],
@@ -102,7 +103,11 @@ SPEC = {
             "of 16 kinds, in the entry file or an included file); (2) the diagnostics stream: the 104 families of rejected "
             "programs of C07 (every TyperError / ParseError / PreprocessError / LexerError variant reachable), 31 own families "
             "(errors inside macro expansions, notes across files, file shapes: no final newline, #include on the last line, "
-            "empty files, CRLF, tabs and UTF-8, splices, bytes that are not white space, trivia next to #, ##, <, >), 96 "
+            "empty files, CRLF, tabs and UTF-8, splices, bytes that are not white space, trivia next to #, ##, <, >; every "
+            "spelling of the defined operator; directives that do nothing or sit in skipped blocks, invalid parameter lists, "
+            "header names that wrap; uncalled / mutually recursive / nested function-like macros; programs compiled with "
+            "command-line defines (CompileArgs::defines: used in the entry file and in includes, broken bodies, invalid "
+            "defines, redefined / undefined in the source), also 1 in 6 of the generated programs), 105 "
             "single-error programs and the repository's own rejected test inputs; x 4 targets x edits: k in 0..50 whole lines "
             "(blank, comment, whitespace) at a line start, or 1..n trivia insertions (spaces, tabs, block comments with fixed "
             "and random bodies, multi-line block comments, line comment + newline also spliced over lines, blank lines, CRLF, "
@@ -124,7 +129,8 @@ SPEC = {
                   "proved, for all texts, insertion points and file lists, to move every later position down by exactly k lines "
                   "with unchanged column and file when k newline-terminated lines are inserted at a line start, to leave earlier "
                   "positions and other files untouched, to decode a position inside an included file to that file's own name "
-                  "and line whatever the including files contain, and to print distinct positions differently. (b) For the "
+                  "and line whatever the including files contain (the <define> files that command-line defines are loaded as "
+                  "included: commandline_defines_location), and to print distinct positions differently. (b) For the "
                   "byte-level model of preprocess/src/lexer.rs (token_intermediate with every sub-lexer, TokenStream::read_to_end, "
                   "prepare_tokens) it is proved for all texts that inserting any trivia text (spaces, tabs, LF/CRLF, spliced line "
                   "ends, block comments closed at their first */, line comments with their line end) at offset 0 or after any "
@@ -135,14 +141,15 @@ SPEC = {
                   "directive state machine of preprocess_included_file is proved to split a token stream into commands and normal "
                   "tokens independently of Whitespace / Comment / PhysicalEndline tokens (partial: what the commands, macro "
                   "expansion, parser and typer then do is tested only). Constants, format pieces, token tables, the loop shapes "
-                  "of block_comment / line_comment and the directive arms are re-extracted from the source each run; the models "
+                  "of block_comment / line_comment, the directive arms and the way command-line defines are loaded (file name, "
+                  "contents, offset 0, before the entry file) are re-extracted from the source each run; the models "
                   "are compared with the real SourceManager, MessagePrinter and TokenStream, and with where the real compile() "
                   "puts every message of the diagnostic of an edited program. That every later compiler stage carries token "
                   "spans through is tested (metamorphic run on the real compile over 350+ distinct diagnostics), not proved.",
     "trusted_base": [
         "Lean 4.33 kernel; axioms propext / Classical.choice / Quot.sound only",
-        "tools/gens/c14.py: regex extraction of constants, format strings, comment-lexer loop shapes and directive arms from "
-        "text/src/location.rs, errors.rs, tokens.rs, preprocess.rs and lexer.rs; tools/gens/c10.py: keyword / operator / "
+        "tools/gens/c14.py: regex extraction of constants, format strings, comment-lexer loop shapes, directive arms and the "
+        "command-line define loader from text/src/location.rs, errors.rs, tokens.rs, preprocess.rs and lexer.rs; tools/gens/c10.py: keyword / operator / "
         "suffix tables of lexer.rs (Gen.LexTables)",
         "hand-written Model/SourceMap.lean (get_file_location / get_file_offset_from_source_location / write_source_for_error / "
         "write_message) and Model/Lexer.lean (C10's byte-level lexer, used unchanged) behind Model/TriviaLexer.lean; tied to "
@@ -157,5 +164,13 @@ SPEC = {
         "the model reports that panic explicitly)",
         "the lexer theorems are about read_to_end (token_intermediate in normal mode); the header-name mode used for the rest of "
         "an #include line is covered by the metamorphic run only",
+        "covered by the correspondence run and its oracle only (inside functions no Lean model transcribes: find_single_macro / "
+        "apply_single_macro / preprocess_command / Macro::parse): the defined operator with and without parentheses, "
+        "#undef of an unknown name, #pragma warning, directives that are not names inside skipped blocks, invalid macro "
+        "parameter lists, macro errors in the text in front of a directive or inside macro arguments, function-like macro "
+        "names that are not called, mutually recursive macros; for command-line defines only the position arithmetic is "
+        "in the model (their text is lexed by the modelled lexer, Macro::parse and expansion are not modelled)",
+        "the text of a command-line define is not edited (it is not a file of the program); a request carries it as a "
+        "leading pseudo-file `<define>` = `NAME VALUE` and mode `+defs<n>`",
     ],
 }
